@@ -24,6 +24,12 @@ class _Ret(Exception):
     pass
 
 
+class _Rejected(Exception):
+    """FileInfo.write raised in a rejection scenario (read-only archive / index out of range): `by` = which validation raised."""
+    def __init__(self, by: str):
+        self.by = by
+
+
 class _Sym:
     """Execution state for one scenario."""
     def __init__(self, scen: dict, consts: dict[str, int], params: list[str]):
@@ -55,7 +61,7 @@ class _Sym:
                 return ('folder',)
             return ('vpkattr', name)
         if base == ('mode',) and name == 'writable':
-            return ('bool', True)
+            return ('bool', self.scen.get('writable', True))
         if base == ('mode',) and name == 'name':
             return ('str', '?')
         if base == ('mod', 'os') and name == 'SEEK_END':
@@ -173,7 +179,13 @@ class _Sym:
                     return ('limit',) if self.scen['lim'] == 'small' else ('max',)
                 if f.id == 'get_arch_filename' and len(args) == 2:
                     return ('archname', args[0], args[1])
-                if f.id == '_check_arch_index':
+                if f.id == '_check_arch_index' and len(args) == 1:
+                    if self.scen.get('idx_bad'):
+                        # rejection scenario: the index argument is out of range; the validation raises when it is handed that argument
+                        if args[0] == ('arg_idx',):
+                            raise _Rejected('index')
+                        if args[0] != ('none',):
+                            raise TranslateError(f'line {e.lineno}: FileInfo.write: _check_arch_index applied to {args[0]}')
                     return ('none',)
                 if f.id == 'open' and len(args) == 2 and args[1][0] == 'str':
                     self.nfile += 1
@@ -186,6 +198,8 @@ class _Sym:
                 if base == ('mod', 'os.path') and f.attr == 'join':
                     return ('join',) + tuple(args)
                 if base == ('vpk',) and f.attr == '_check_writable' and not args:
+                    if not self.scen.get('writable', True):
+                        raise _Rejected('mode')
                     return ('none',)
                 if base[0] == 'file':
                     fo = self.files[base[1]]
@@ -232,6 +246,9 @@ class _Sym:
                     raise TranslateError(f'line {s.lineno}: FileInfo.write returns a value')
                 raise _Ret()
             if isinstance(s, ast.Raise):
+                if not self.scen.get('writable', True):
+                    # the only fact that differs from the accepted run is the mode: this raise is the writability guard
+                    raise _Rejected('mode')
                 raise TranslateError(f'line {s.lineno}: FileInfo.write raises in a writable archive with a valid index')
             if isinstance(s, ast.Assign):
                 v = self.ev(s.value)
@@ -330,6 +347,63 @@ def analyse_write(fn: ast.FunctionDef, consts: dict[str, int]) -> dict:
             same_ok = False
     facts['prefix_expr'] = sorted(map(str, facts['prefix_expr']))
     return {'rows': rows, 'same_crc_skips': same_ok, 'facts': facts}
+
+
+_STORE = {'crc': 'SCrc', 'start_data': 'SPre', 'arch_index': 'SIdx', 'offset': 'SOff', 'arch_len': 'SLen'}
+
+
+def analyse_rejections(fn: ast.FunctionDef, consts: dict[str, int]) -> list[dict]:
+    """FileInfo.write executed in the *rejection* scenarios: the archive is read-only ('mode'), the index argument is out of range
+    ('index'), or both ('both'), for every combination of directory VPK? x limit class x rest empty? x same checksum? (x index None? for
+    'mode').  Per run: did a validation raise, which one, and WHAT HAD ALREADY BEEN STORED when it did (fields of the entry, footer_data,
+    an archive file opened).  Distinct outcomes per (directory VPK?, same checksum?, kind) go to Gen/VpkPlace_gen.v as `g_rej_table`
+    (SM/VpkWriteOrder.v [rejrow]); `rej_table_ok` wants: every validation that can reject raises before the first store."""
+    params = [a.arg for a in fn.args.posonlyargs + fn.args.args]
+    if len(params) != 3:
+        raise TranslateError('FileInfo.write: (self, data, arch_index) expected')
+    seen: dict[tuple, dict] = {}
+    for kind in ('mode', 'index', 'both'):
+        for dr, lim, tail_empty, same, idx_none in itertools.product((False, True), ('none', 'small', 'big'), (False, True), (False, True), (False, True)):
+            if idx_none and kind != 'mode':
+                continue        # None is never out of range
+            scen = {'dir': dr, 'lim': lim, 'idx_none': idx_none, 'tail_empty': tail_empty, 'same_crc': same,
+                    'writable': kind == 'index', 'idx_bad': kind != 'mode'}
+            st = _Sym(scen, consts, params)
+            by = None
+            try:
+                st.run(fn.body)
+            except _Ret:
+                pass
+            except _Rejected as r:
+                by = r.by
+            dirty = []
+            if by is not None:
+                dirty = [_STORE.get(k, 'SOther') for k in st.fields]
+                if st.footer != ('footer0',):
+                    dirty.append('SFoot')
+                if st.files:
+                    dirty.append('SArch')
+            row = {'dir': dr, 'same': same, 'kind': kind, 'raised': by is not None, 'by': by or kind, 'dirty': dirty}
+            seen.setdefault((dr, same, kind, by, tuple(dirty)), row)
+    return list(seen.values())
+
+
+def coq_rej_rows(rows: list[dict]) -> str:
+    b = lambda x: 'true' if x else 'false'
+    k = {'mode': 'KMode', 'index': 'KIndex', 'both': 'KBoth'}
+    return '[' + ';\n   '.join(
+        f'mkRej {b(r["dir"])} {b(r["same"])} {k[r["kind"]]} {b(r["raised"])} {k[r["by"]]} [{"; ".join(r["dirty"])}]' for r in rows) + ']'
+
+
+def rej_rows_ok(rows: list[dict]) -> bool:
+    """side information only (the obligation is decided in Coq): every validation raises before the first store"""
+    for r in rows:
+        if r['kind'] == 'index' and not r['dir']:
+            if r['raised']:
+                return False
+        elif not r['raised'] or r['dirty'] or r['by'] != ('mode' if r['kind'] != 'index' else 'index'):
+            return False
+    return len({(r['dir'], r['same'], r['kind']) for r in rows}) == 12
 
 
 def coq_rows(rows: list[dict]) -> str:
@@ -722,18 +796,28 @@ def index_check_ok(fn: ast.FunctionDef, consts: dict[str, int]) -> bool:
 
 
 def index_check_guarded(fn: ast.FunctionDef, vpk_exprs: tuple[str, ...]) -> bool:
-    """`if <vpk>._dir_prefix is not None: _check_arch_index(<index parameter>)` (also `<vpk>.is_directory`), before anything else uses
-    the index"""
+    """`if <vpk>._dir_prefix is not None: _check_arch_index(<index parameter>)` (also `<vpk>.is_directory`, also through a local bound to
+    `<vpk>._dir_prefix`) as a statement of the body that comes BEFORE the first statement that creates or writes an entry (`new_file` /
+    `.write`): a bad index must not leave an empty file behind."""
     params = [a.arg for a in fn.args.posonlyargs + fn.args.args + fn.args.kwonlyargs]
+    accepted = tuple(f'{v}._dir_prefix is not None' for v in vpk_exprs) + tuple(f'{v}.is_directory' for v in vpk_exprs)
+    alias: dict[str, str] = {}
     for s in fn.body:
+        if isinstance(s, ast.Assign) and len(s.targets) == 1 and isinstance(s.targets[0], ast.Name) and isinstance(s.value, ast.Attribute):
+            alias[s.targets[0].id] = ast.unparse(s.value)
+            continue
         if isinstance(s, ast.If) and not s.orelse:
-            t = ast.unparse(s.test)
-            if t in tuple(f'{v}._dir_prefix is not None' for v in vpk_exprs) + tuple(f'{v}.is_directory' for v in vpk_exprs):
+            test = s.test
+            if isinstance(test, ast.Compare) and isinstance(test.left, ast.Name) and test.left.id in alias:
+                test = ast.Compare(left=ast.parse(alias[test.left.id], mode='eval').body, ops=test.ops, comparators=test.comparators)
+            if ast.unparse(test) in accepted:
                 for b in s.body:
                     if isinstance(b, ast.Expr) and isinstance(b.value, ast.Call) and isinstance(b.value.func, ast.Name) \
                             and b.value.func.id == '_check_arch_index' and len(b.value.args) == 1 and isinstance(b.value.args[0], ast.Name) \
                             and b.value.args[0].id in params:
                         return True
+        if any(isinstance(n, ast.Call) and isinstance(n.func, ast.Attribute) and n.func.attr in ('new_file', 'write') for n in ast.walk(s)):
+            return False
     return False
 
 
